@@ -66,6 +66,28 @@ def instantiate(q, bound):
     return [q]
 
 
+def _bound_marks(c, lower, upper, neg=False):
+    """Record which bound variables a guard conjunct bounds from below / above (v OP term or term OP v)."""
+    if z3.is_not(c):
+        return _bound_marks(c.arg(0), lower, upper, not neg)
+    if c.num_args() != 2:
+        return
+    a, b = c.arg(0), c.arg(1)
+    k = c.decl().kind()
+    if k in (z3.Z3_OP_LE, z3.Z3_OP_LT):
+        lo_side, hi_side = a, b            # a <= b : b bounded below by a, a bounded above by b
+    elif k in (z3.Z3_OP_GE, z3.Z3_OP_GT):
+        lo_side, hi_side = b, a
+    else:
+        return
+    if neg:
+        lo_side, hi_side = hi_side, lo_side   # not (a <= b)  ==  b < a
+    if z3.is_var(hi_side):
+        lower.add(z3.get_var_index(hi_side))
+    if z3.is_var(lo_side):
+        upper.add(z3.get_var_index(lo_side))
+
+
 def index_guarded(q):
     """Is every universally quantified variable of the fact q confined to an index range (lo <= v, v < hi)?
     Only then do the instances at 0..K-1 (with all sequence lengths <= K) cover the whole quantifier, and a model of
@@ -75,29 +97,26 @@ def index_guarded(q):
             return False
         n = q.num_vars()
         body = q.body()
-        if not (z3.is_implies(body)):
+        guard = rest = None
+        if z3.is_implies(body):
+            guard, rest = body.arg(0), body.arg(1)
+        elif z3.is_or(body):
+            # Or(Not(guard), consequent...) is the same implication
+            for ch in body.children():
+                if z3.is_not(ch):
+                    guard = ch.arg(0)
+                    others = [o for o in body.children() if o is not ch and not o.eq(ch)]
+                    rest = z3.Or(*others) if len(others) > 1 else (others[0] if others else z3.BoolVal(False))
+                    break
+        if guard is None:
             return False
-        guard = body.arg(0)
         conj = list(guard.children()) if z3.is_and(guard) else [guard]
         lower, upper = set(), set()
         for c in conj:
-            if c.num_args() != 2:
-                continue
-            a, b = c.arg(0), c.arg(1)
-            k = c.decl().kind()
-            if k in (z3.Z3_OP_LE, z3.Z3_OP_LT):
-                if z3.is_var(b):
-                    lower.add(z3.get_var_index(b))
-                if z3.is_var(a):
-                    upper.add(z3.get_var_index(a))
-            elif k in (z3.Z3_OP_GE, z3.Z3_OP_GT):
-                if z3.is_var(a):
-                    lower.add(z3.get_var_index(a))
-                if z3.is_var(b):
-                    upper.add(z3.get_var_index(b))
+            _bound_marks(c, lower, upper)
         if not all(i in lower and i in upper for i in range(n)):
             return False
-        return index_guarded(body.arg(1)) if has_quantifier(body.arg(1)) else True
+        return index_guarded(rest) if has_quantifier(rest) else True
     if z3.is_and(q):
         return all(index_guarded(ch) for ch in q.children())
     if z3.is_implies(q) and not has_quantifier(q.arg(0)):
